@@ -40,7 +40,7 @@ TRDec == /\ IsEvent("op") /\ R.k = "fetch_sub" /\ R.l \in {"lock0", "lock1"}
 TWLock == IsOp("lock", "mtx") /\ W_Lock(R.t)
 TWPtr == IsOp("load", "data") /\ Top(R.t).kind = "W" /\ R.o = OrdWPtr /\ W_Ptr(R.t)
 TWAlloc == IsEvent("alloc") /\ W_Alloc(R.t) /\ nboxes' = R.s
-TWSwap == IsOp("swap", "data") /\ R.o = OrdWSwap /\ M!Latest(DATA) = R.old
+TWSwap == IsOp(Publish, "data") /\ R.o = OrdWSwap /\ (Publish = "swap" => M!Latest(DATA) = R.old)
           /\ Top(R.t).new = R.new /\ W_Swap(R.t)
 TWSeen == /\ IsEvent("op") /\ R.k = "load" /\ R.l \in {"lock0", "lock1"} /\ R.o = OrdWSeen
           /\ (W_Seen(R.t, LockIdx(R.l)) \/ W_Re(R.t, LockIdx(R.l)))
